@@ -46,6 +46,10 @@ def parse_snap(s):
     if i < len(t) and t[i] == "pk":
         i += 1
         while i < len(t) and t[i] != "t":
+            if t[i] == "panic":         # the public peeks themselves panicked on this state
+                sn.pk = "panic"
+                i += 1
+                break
             e, i = parse_opt_e(t, i)
             sn.pk.append(e)
     sn.dt = None
@@ -55,13 +59,14 @@ def parse_snap(s):
 
 
 class Line:
-    __slots__ = ("text", "op", "args", "res", "snap", "fault", "lineno")
+    __slots__ = ("text", "op", "args", "res", "snap", "fault", "lineno", "unordered")
 
 
 def parse_line(text, lineno=0):
     ln = Line()
     ln.text = text
     ln.lineno = lineno
+    ln.unordered = False
     lhs, _, rhs = text.partition(" => ")
     toks = lhs.split()
     ln.op = toks[0]
@@ -92,6 +97,8 @@ def j_wf(kind, pre, ln):
             return None
         return "operation faulted: " + ln.res
     s = ln.snap
+    if s.pk == "panic":
+        return "peek panics on the queue left by %s" % ln.op
     n = len(s.map)
     if not (len(s.heap) == n and len(s.qp) == n and s.size == n):
         return "lengths disagree: map %d heap %d qp %d size %d" % (n, len(s.heap), len(s.qp), s.size)
@@ -123,6 +130,10 @@ def j_extreme(kind, pre, ln):
     s = ln.snap
     cont = s.contents()
     if ln.op == "load":
+        return None
+    if s.pk == "panic":
+        return "peek panics on the queue left by %s" % ln.op
+    if pre is not None and pre.pk == "panic":
         return None
     # kind after the op (convert / serde_rt / load may change it) is visible from the number of peeks
     if len(s.pk) == 1:
@@ -451,6 +462,8 @@ def j_nofault(kind, pre, ln):
         if ln.op in ("reserve", "reserve_exact") and ln.res == "fault capacity" and int(ln.args[0]) >= 2 ** 61:
             return None
         return "%s faulted: %s" % (ln.op, ln.res)
+    if ln.snap is not None and ln.snap.pk == "panic":
+        return "peek panics on the queue left by %s" % ln.op
     return None
 
 
@@ -527,6 +540,8 @@ def j_sorted(kind, pre, ln):
             return "%s yielded items %s, stored are %s" % (ln.op, ks, sorted(c))
         ps = [c[k][1] for k in ks]
         asc = ln.op == "into_asc_vec"
+        if ln.unordered:
+            return None     # (leaked iter_mut guard / caught panic: each element exactly once is all that is specified)
         for x, y in zip(ps, ps[1:]):
             if (x > y) if asc else (x < y):
                 return "%s is not monotone: priorities %s" % (ln.op, ps)
@@ -554,6 +569,8 @@ def j_sorted(kind, pre, ln):
                         return "sorted iterator last() = %s on an exhausted iterator" % (e,)
                     continue
                 want = remp[0] if kind == "pq" else remp[-1]     # the element a front-to-back traversal reaches last
+                if ln.unordered and e is not None:
+                    want = e[2]
                 if e is None or c.get(e[0]) != (e[1], e[2]) or e[0] in yielded or e[2] != want:
                     return "sorted iterator last() = %s, the last element due has priority %d" % (e, want)
                 continue
@@ -578,7 +595,7 @@ def j_sorted(kind, pre, ln):
                 if c.get(e[0]) != (e[1], e[2]) or e[0] in yielded:
                     return "sorted iterator yielded %s which is not a stored element not yet yielded" % (e,)
                 want = remp[-1 - skip] if from_max else remp[skip]
-                if e[2] != want:
+                if e[2] != want and not ln.unordered:
                     return "sorted iterator yielded priority %d, but the %s due after skipping %d is %d" % (e[2], "maximum" if from_max else "minimum", skip, want)
                 yielded.add(e[0])
                 remp = remp[: len(remp) - skip - 1] if from_max else remp[skip + 1:]
@@ -729,13 +746,37 @@ def judge_case(prop, kind, lines):
             k = ln.args[0]
             pre = ln.snap
             continue
+        if ln.op.startswith("!"):
+            # an operation during which an injected user panic (Ord::cmp / callback) may have fired
+            if ln.fault:
+                if ln.res != "fault user" or not ln.op.startswith("!cmp"):
+                    return None            # other fault kinds are judged by the C10 crash stream, not here
+                # the panic was caught and the queue survives (C10): the case goes on from the post-unwinding state read
+                # through the hook; the order of such a queue is unspecified until something rebuilds it, everything
+                # else (contents of later operations, iterator contracts, well-formedness) is judged as usual
+                try:
+                    kk, _, core = text.partition(" | ")[2].strip().partition(" ")
+                    pre = parse_snap(core)
+                    k = kk
+                except Exception as ex:
+                    return (idx, "unparsable post-fault state: %s" % ex)
+                order_unspecified = True
+                if prop == "C10":
+                    msg = j_wf(k, None, type("L", (), {"fault": False, "snap": pre, "op": ln.op, "args": [], "res": ""})())
+                    if msg:
+                        return (idx, "after a caught panic: " + msg)
+                continue
+            # the fuse did not fire: an ordinary operation
+            text = text[text.index(" ") + 1:]
+            ln = parse_line(text)
         if ln.op == "iter_mut" and ln.args and ln.args[0] == "forget":
             order_unspecified = True
         elif ln.op in ("clear", "drain", "from_vec", "from_iter", "deser", "serde_rt", "convert", "retain", "retain_mut", "append") or (
                 ln.op == "iter_mut" and ln.args and ln.args[0] == "drop"):
             order_unspecified = False   # these rebuild the whole heap (or empty it)
+        ln.unordered = order_unspecified
         for j in JUDGES.get(prop, []):
-            if order_unspecified and j in (j_extreme, j_sorted):
+            if order_unspecified and j is j_extreme:
                 continue
             try:
                 msg = j(k, pre, ln)
